@@ -205,6 +205,8 @@ def write_replay(pid, failure):
     os.makedirs(d, exist_ok=True)
     body = {"property": pid, "sub": failure["sub"], "case": failure["case"], "message": failure["message"],
             "origin": failure.get("origin", "")}
+    if failure.get("env"):
+        body["env"] = failure["env"]
     h = hashlib.sha256(json.dumps([failure["sub"], failure["case"]], sort_keys=True).encode()).hexdigest()[:16]
     path = os.path.join(d, "%s-%s.json" % (failure["sub"], h))
     with open(path, "w") as f:
@@ -265,6 +267,9 @@ def run(pid, spec, prop_index, pkg, pkgdir, tier, replay, verif_seed, scratch, t
                 rf = json.load(f)
         except (OSError, ValueError):
             rf = {}
+        for k, v in (rf.get("env") or {}).items():
+            if k.startswith("VERIF_"):
+                jobs[0]["env"][k] = str(v)
         if rf.get("sub") == "race":
             # a data race is replayed by re-running the race job that reported it, with its seed
             want = (rf.get("case") or {}).get("job", "").rsplit("-", 1)[0]
@@ -358,6 +363,13 @@ def run(pid, spec, prop_index, pkg, pkgdir, tier, replay, verif_seed, scratch, t
         for fl in d.get("failures") or []:
             fl["job"] = r["tag"]
             fl["seed"] = r.get("seed")
+            # process-level conditions of the job that found it (dropped privileges, umask): the replay needs them
+            cond = dict(r["job"].get("env") or {})
+            if r["job"].get("uid"):
+                cond["VERIF_DROP_UID"] = str(r["job"]["uid"])
+            cond.pop("VERIF_REPLAY", None)
+            if cond:
+                fl["env"] = cond
             failures.append(fl)
         for ks in d.get("known") or []:
             known[ks["key"]] = ks
